@@ -1,14 +1,31 @@
 import CelmaVerif.Lemmas.Spelling
 import CelmaVerif.Lemmas.FileLines
+import CelmaVerif.Lemmas.SourcesSim
 import CelmaVerif.Props.C07
 /-
   C07, second half — arguments from an argument file or the environment variable are evaluated by
-  the same rules as command-line words.  (First half — splitting inverts quoting — in Props/C07.lean.)
+  the same rules as command-line words, produce the same destination values, and can be overridden
+  on the command line.  (First half — splitting inverts quoting — in Props/C07.lean.)
+
+  The clause theorems are, end to end on `evalArguments` with its `Sources`:
+  * `C07_sources_are_uses`   — file lines (comment and empty lines interspersed, any quoting), then
+    the environment value, then argv are ONE abstract command line, applied in that order; the
+    "from a source" flag is set for the first two and reset before argv;
+  * `C07_same_as_argv`       — an accepted evaluation leaves in every destination what that abstract
+    command line denotes, which is what the same line leaves when it is given on argv alone;
+  * `C07_valid_line_through_sources` — a line that is valid on argv is accepted when delivered
+    wholly or partly through the sources (same destinations), and how the flag changes the rules;
+  * `C07_override`, `C07_override_value` — a scalar given by a source and again on argv: no
+    exception, the destination holds the argv value.
+  `C07_file_comment_lines`, `C07_file_line_is_words`, `C07_env_is_words` only unfold the model's
+  definitions (kept as lemmas), `C07_escaped_line_same_uses_partial` and
+  `C07_source_values_not_counted` are single-step facts; none of them is the clause.
 -/
 namespace CelmaVerif.Props.C07b
 open CelmaVerif CelmaVerif.ProgArgs CelmaVerif.Keys
 
-/-- empty lines and lines starting with `#` of the argument file are skipped -/
+/-- (definitional, one unfolding of `readFileLines`) empty lines and lines starting with `#` of the
+    argument file are skipped -/
 theorem C07_file_comment_lines (cfg : Cfg) (line : Word) (rest : List Word) (h : HState)
     (hc : line = [] ∨ line.head? = some '#') :
     readFileLines cfg (line :: rest) h = readFileLines cfg rest h := by
@@ -17,8 +34,9 @@ theorem C07_file_comment_lines (cfg : Cfg) (line : Word) (rest : List Word) (h :
   · subst e; simp
   · simp [e]
 
-/-- every other line is split into words by `splitString` and the words go through the very same
-    element loop as the command line (with the "from a source" flag set), then the next line -/
+/-- (definitional, one unfolding of `readFileLines`) every other line is split into words by
+    `splitString` and the words go through the very same element loop as the command line, then the
+    next line -/
 theorem C07_file_line_is_words (cfg : Cfg) (line : Word) (rest : List Word) (h : HState)
     (hc : ¬ (line = [] ∨ line.head? = some '#')) :
     readFileLines cfg (line :: rest) h =
@@ -33,25 +51,30 @@ theorem C07_file_line_is_words (cfg : Cfg) (line : Word) (rest : List Word) (h :
       simp [this]
   simp [this]
 
-/-- the environment variable likewise: its value is split by `splitString` and evaluated by the same
-    loop -/
+/-- (definitional, `rfl`) the environment variable likewise: its value is split by `splitString` and
+    evaluated by the same loop -/
 theorem C07_env_is_words (cfg : Cfg) (e : Word) (h : HState) :
     evalEnvSource cfg (some e) h =
       (iterateArguments cfg { h with fromSrc := true } (ArgString.defaultProgName :: ArgString.splitString e) >>=
         fun h' => pure { h' with fromSrc := false }) := rfl
 
-/-- **Same uses as on the command line.**  Take command-line words `ws` (all non-empty) that spell the
-    uses `us`; write them into a file line or the environment value with each word escaped
-    (backslash before blank, both quotes and backslash).  The handler then sees exactly the same
-    words and applies exactly the same uses as for `ws` on argv. -/
+/-- **One escaped line, one loop** (PARTIAL: a single call of the element loop, the same handler state —
+    hence the same from-source flag — on both sides; after `C07_split_join` this is independence of
+    `argv[0]`.  Missing here and proved in `C07_sources_are_uses` / `C07_same_as_argv`: the flag set on
+    the source side only, several lines, comment lines, the environment value, the order, the final
+    checks, the destinations).  Take command-line words `ws` (all non-empty) that spell the uses `us`;
+    write them into a file line or the environment value with each word escaped (backslash before
+    blank, both quotes and backslash).  The element loop then sees exactly the same words and
+    applies exactly the same uses as for `ws` on argv. -/
 theorem C07_escaped_line_same_uses_partial (cfg : Cfg) (h : HState) (us : List Use) (ws : List Word) (prog : Word)
     (hne : ∀ w ∈ ws, w ≠ []) (sp : Spells cfg h.lastArg us ws) :
     iterateArguments cfg h (ArgString.defaultProgName :: ArgString.splitString (ArgString.joinSp (ws.map ArgString.escape)))
       = iterateArguments cfg h (prog :: ws) := by
   rw [C07.C07_split_join ws hne, spells_iterate cfg h _ sp, spells_iterate cfg h prog sp]
 
-/-- **Values from a source do not count towards the cardinality** of a scalar argument — which is what
-    lets a later value on the real command line override them. -/
+/-- **Values from a source do not count towards the cardinality** of a scalar argument (one
+    `assignValue` step, statement about the counter; the end-to-end override statement is
+    `C07_override`). -/
 theorem C07_source_values_not_counted (h h' : HState) (i : Nat) (d : ArgDef) (v : Word) (f : Bool)
     (hsrc : h.fromSrc = true) (hk : d.kind ≠ .vecInt) (hlt : i < h.args.length)
     (he : assignValue h i d v f = .ok h') :
@@ -84,6 +107,134 @@ example : fileLines "-n 5\n-f".toList = ["-n 5".toList, "-f".toList] ∧
     fileLinesHead "-n 5\n-f".toList = ["-n 5".toList] ∧
     fileLines "".toList = [] ∧ fileLines "\n".toList = [[]] := by decide
 
+/-! ### end to end: sources and argv are one abstract command line -/
+
+/-- **The sources are evaluated before argv, in the order file, environment, argv, by the same rules.**
+    Let the lines of the argument file spell the uses `usF` (`FileSpells`: comment and empty lines
+    spell nothing, every other line — any text, quoted in any way — is split by `splitString` and its
+    words spell uses by the same grammar `Spells` as command-line words; several lines follow each
+    other), the environment value spell `usE` and the words on argv spell `usA`; a source that is
+    absent delivers no uses.  Then for every handler state in command-line mode
+    `evalArguments` is: apply `usF ++ usE` with the from-source flag set, *reset the flag*, apply
+    `usA`, run the final checks (`evalUsesSrc`) — as an equation of results: the same final state when
+    accepted, the same exception otherwise.  The last-argument marker is carried across lines and
+    sources (`lastAfter`), as in the code. -/
+theorem C07_sources_are_uses (cfg : Cfg) (h : HState) (src : Sources) (prog : Word) (ws : List Word)
+    {usF usE usA : List Use} (hcmd : h.fromSrc = false)
+    (hF : FileSrcSpells cfg h.lastArg usF src.file)
+    (hE : EnvSrcSpells cfg (lastAfter h.lastArg usF) usE src.env)
+    (hA : Spells cfg (lastAfter h.lastArg (usF ++ usE)) usA ws) :
+    evalArguments cfg h src (prog :: ws) = evalUsesSrc cfg h (usF ++ usE) usA :=
+  evalArguments_sources cfg h src prog ws hcmd hF hE hA
+
+/-- every way of quoting the words in a file line or the environment value: if `qs` are quoted
+    spellings (`AllQuotes`: plain characters, backslash pairs, `'…'` and `"…"` segments) of non-empty
+    words that spell `us`, the text `qs` joined by blanks spells `us` -/
+theorem C07_quoted_text_spells (cfg : Cfg) (l : Option Nat) (us : List Use) (qs ws : List Word)
+    (hq : ArgString.AllQuotes qs ws) (hne : ∀ w ∈ ws, w ≠ []) (sp : Spells cfg l us ws) :
+    Spells cfg l us (ArgString.splitString (ArgString.joinSp qs)) := by
+  rw [C07.C07_split_quoted qs ws hq hne]; exact sp
+
+/-- **Same destination values as on the command line.**  Whenever an evaluation with sources is
+    accepted, every destination holds `denote` of the values its argument was given, in the order
+    file, environment, argv (unused ⇒ initial value; flag ⇒ set; int / string ⇒ the last value,
+    converted; list ⇒ initial content followed by all elements; LevelCounter ⇒ increments and
+    assignments in order) — and that is, destination by destination, what every accepted evaluation
+    of the same abstract command line given on argv alone leaves (any spelling `ws'` of it). -/
+theorem C07_same_as_argv (cfg : Cfg) (inits : List DVal) (hin : cfg.args.length ≤ inits.length)
+    (src : Sources) (prog : Word) (ws : List Word) {usF usE usA : List Use}
+    (hF : FileSrcSpells cfg none usF src.file)
+    (hE : EnvSrcSpells cfg (lastAfter none usF) usE src.env)
+    (hA : Spells cfg (lastAfter none (usF ++ usE)) usA ws)
+    {hf : HState} (e : evalArguments cfg (cfg.initState inits) src (prog :: ws) = .ok hf)
+    {i : Nat} {d : ArgDef} {v : DVal} (hi : cfg.args[i]? = some d) (hv : inits[i]? = some v)
+    (ht : d.kind = .vecInt → ∃ l, v = .vec l) :
+    (∃ st, hf.args[i]? = some st ∧ st.dest = denote d v (valsOf i (usF ++ usE ++ usA))) ∧
+    ∀ (prog' : Word) (ws' : List Word) (hf' : HState), Spells cfg none (usF ++ usE ++ usA) ws' →
+      evalArguments cfg (cfg.initState inits) {} (prog' :: ws') = .ok hf' →
+      ∃ st st', hf.args[i]? = some st ∧ hf'.args[i]? = some st' ∧ st.dest = st'.dest := by
+  rw [evalArguments_sources cfg (cfg.initState inits) src prog ws rfl hF hE hA] at e
+  obtain ⟨st, hst, hd⟩ := sources_dests_denote hin e hi hv ht
+  refine ⟨⟨st, hst, hd⟩, ?_⟩
+  intro prog' ws' hf' hs' e'
+  rw [spells_eval cfg (cfg.initState inits) prog' hs'] at e'
+  obtain ⟨st', hst', hd'⟩ := dests_denote hin e' hi hv ht
+  exact ⟨st, st', hst, hst', by rw [hd, hd']⟩
+
+/-- **A valid command line stays valid when it is delivered through the sources** — and what the
+    from-source flag changes.  The flag is read in one place: `assignValue` skips the cardinality
+    object's `gotValue()`.  So the evaluation with sources goes through the same states as the
+    evaluation of the same line on argv, up to the counters, which are smaller.  Hence: if the
+    abstract command line `usF ++ usE ++ usA`, in some spelling `ws'`, is accepted on argv alone, it
+    is accepted with `usF` in the file, `usE` in the environment variable and `usA` on argv, and
+    every destination ends with the same value — provided every argument used by a source has a
+    cardinality without a condition at the end (`unlimited` or `max n`; the default of every scalar
+    argument is `max 1`, of a list `unlimited`).  For `exact`/`range` cardinalities the smaller count
+    can fail the final check: `C07_finding_list_cardinality_from_file` (lists) is such a case. -/
+theorem C07_valid_line_through_sources (cfg : Cfg) (inits : List DVal)
+    (src : Sources) (prog : Word) (ws : List Word) {usF usE usA : List Use}
+    (hF : FileSrcSpells cfg none usF src.file)
+    (hE : EnvSrcSpells cfg (lastAfter none usF) usE src.env)
+    (hA : Spells cfg (lastAfter none (usF ++ usE)) usA ws)
+    (prog' : Word) (ws' : List Word) (hw : Spells cfg none (usF ++ usE ++ usA) ws') {hArgv : HState}
+    (eA : evalArguments cfg (cfg.initState inits) {} (prog' :: ws') = .ok hArgv)
+    (hS : ∀ i d, UsedBy (usF ++ usE) i → cfg.args[i]? = some d → d.card.NoEnd) :
+    ∃ hf, evalArguments cfg (cfg.initState inits) src (prog :: ws) = .ok hf ∧
+      hf.args.map (·.dest) = hArgv.args.map (·.dest) := by
+  rw [spells_eval cfg (cfg.initState inits) prog' hw] at eA
+  rw [evalArguments_sources cfg (cfg.initState inits) src prog ws rfl hF hE hA]
+  obtain ⟨hf, e, hE'⟩ := evalUsesSrc_sim (relaxed_refl cfg) (h0 := cfg.initState inits) (usS := usF ++ usE)
+    (usA := usA) rfl eA (fun _ _ _ c => absurd c id) (fun i d hu _ hd => hS i d hu hd)
+  exact ⟨hf, e, hE'.dests⟩
+
+/-- **Override.**  Let `O` select non-list arguments with a cardinality `max n` (every int / string /
+    flag argument has `max 1` unless told otherwise).  Suppose the abstract command line
+    `usF ++ usE ++ usA` obeys every rule of the configuration *except* those cardinalities — i.e. it
+    is accepted under `cfg.relax O`, the configuration without the cardinality objects of `O`
+    (`rules_complete` derives this from the declarative rules `Obeys`) — and each argument in `O` is
+    used at most `n` times *on argv*, however often the sources give it; the other arguments the
+    sources use have `unlimited`/`max` cardinalities.  Then the evaluation with `usF` in the file,
+    `usE` in the environment variable and `usA` on argv throws nothing: it is accepted, and every
+    destination holds `denote` of all its values in the order file, environment, argv — for an int
+    or string argument the last one, which is the argv value whenever argv gives one
+    (`C07_override_value`).  On argv alone the same line is refused as soon as a source value and an
+    argv value of a `max 1` argument meet (`C07_override_needs_source`). -/
+theorem C07_override (cfg : Cfg) (inits : List DVal) (hin : cfg.args.length ≤ inits.length) (O : Nat → Bool)
+    (hsc : ∀ i d, O i = true → cfg.args[i]? = some d → d.kind ≠ .vecInt ∧ ∃ n, d.card = .max n)
+    (src : Sources) (prog : Word) (ws : List Word) {usF usE usA : List Use}
+    (hF : FileSrcSpells cfg none usF src.file)
+    (hE : EnvSrcSpells cfg (lastAfter none usF) usE src.env)
+    (hA : Spells cfg (lastAfter none (usF ++ usE)) usA ws)
+    {hR : HState} (eR : evalUses (cfg.relax O) (cfg.initState inits) (usF ++ usE ++ usA) = .ok hR)
+    (hb : ∀ i d n, O i = true → cfg.args[i]? = some d → d.card = .max n → n = -1 ∨ (usesOf i usA : Int) ≤ n)
+    (hS : ∀ i d, UsedBy (usF ++ usE) i → O i = false → cfg.args[i]? = some d → d.card.NoEnd) :
+    ∃ hf, evalArguments cfg (cfg.initState inits) src (prog :: ws) = .ok hf ∧
+      ∀ i d v, cfg.args[i]? = some d → inits[i]? = some v → (d.kind = .vecInt → ∃ l, v = .vec l) →
+        ∃ st, hf.args[i]? = some st ∧ st.dest = denote d v (valsOf i (usF ++ usE ++ usA)) := by
+  rw [evalArguments_sources cfg (cfg.initState inits) src prog ws rfl hF hE hA]
+  obtain ⟨hf, e, _⟩ := evalUsesSrc_sim (relaxed_relax cfg O hsc) (h0 := cfg.initState inits) (usS := usF ++ usE)
+    (usA := usA) rfl eR
+    (fun i d n hO hd hn => by
+      have hc : cntOf (cfg.initState inits) i = 0 := by
+        unfold cntOf Cfg.initState
+        simp only [List.getD_eq_getElem?_getD, List.getElem?_map]
+        cases ((cfg.args.zip inits)[i]?) <;> rfl
+      rw [hc]; simpa using hb i d n hO hd hn)
+    (fun i d hu hO hd => hS i d hu (by cases h : O i <;> simp_all) hd)
+  refine ⟨hf, e, fun i d v hi hv ht => ?_⟩
+  exact sources_dests_denote hin e hi hv ht
+
+/-- the value an overridden int or string destination ends with: the last value given on argv -/
+theorem C07_override_value (d : ArgDef) (init : DVal) (i : Nat) (usS usA : List Use) (vs : List Word) (last : Word)
+    (hv : valsOf i usA = vs ++ [last]) :
+    (d.kind = .int → denote d init (valsOf i (usS ++ usA)) = .int (castOr0 last)) ∧
+    (d.kind = .str → denote d init (valsOf i (usS ++ usA)) = .str last) := by
+  have : valsOf i (usS ++ usA) = (valsOf i usS ++ vs) ++ [last] := by
+    unfold valsOf at hv ⊢
+    rw [List.filter_append, List.map_append, hv, List.append_assoc]
+  rw [this]
+  constructor <;> intro hk <;> simp [denote, hk]
+
 /-! ### the recorded finding `list-cardinality-from-file` -/
 
 namespace Finding
@@ -102,6 +253,163 @@ theorem C07_finding_list_cardinality_argv_ok :
 theorem C07_finding_list_cardinality_from_file :
     (evalArguments Finding.cfg Finding.h0 { file := some ["-m 1,2".toList] } ["p".toList]).isOk = false := by
   decide +kernel
+
+/-! ### non-vacuity: all hypotheses of the end-to-end theorems together
+
+  `-n,--num` (int, at most once), `-f` (flag), `-l` (list of int, takes free values).  The file
+  holds a comment line, an empty line, `-n 5`, `-l 1`, and a line with the free value `2` (which
+  continues `-l` of the line before); the environment variable holds `-f`; argv is `-n 7`. -/
+
+namespace Ex
+def nArg : ArgDef := { key := ⟨some 'n', ['n', 'u', 'm']⟩, kind := .int, vmode := .required, card := .max 1 }
+def fArg : ArgDef := { key := ⟨some 'f', []⟩, kind := .flag, vmode := .none, card := .max 1 }
+def lArg : ArgDef := { key := ⟨some 'l', []⟩, kind := .vecInt, vmode := .required, card := .unlimited, multi := true }
+def cfg : Cfg := { args := [nArg, fArg, lArg] }
+def inits : List DVal := [.int 0, .flag false, .vec []]
+def lines : List Word := [['#', ' ', 'x'], [], ['-', 'n', ' ', '5'], ['-', 'l', ' ', '1'], ['2']]
+def src : Sources := { file := some lines, env := some ['-', 'f'] }
+def argv : List Word := [['-', 'n'], ['7']]
+def usF : List Use := [⟨0, ['5'], true⟩, ⟨2, ['1'], true⟩, ⟨2, ['2'], false⟩]
+def usE : List Use := [⟨1, [], true⟩]
+def usA : List Use := [⟨0, ['7'], true⟩]
+def O : Nat → Bool := fun i => i == 0
+
+theorem plain (c : Char) (h : c ≠ '-' ∧ c ≠ '(' ∧ c ≠ ')' ∧ c ≠ '!') : PlainWord [c] := by
+  unfold PlainWord
+  obtain ⟨h1, h2, h3, h4⟩ := h
+  simp [h1, h2, h3, h4]
+
+theorem hF : FileSrcSpells cfg none usF src.file := by
+  show FileSpells cfg none usF lines
+  refine .skip (Or.inr rfl) (.skip (Or.inl rfl) ?_)
+  have s1 : ArgString.splitString ['-', 'n', ' ', '5'] = [['-', 'n'], ['5']] := by decide
+  have s2 : ArgString.splitString ['-', 'l', ' ', '1'] = [['-', 'l'], ['1']] := by decide
+  have s3 : ArgString.splitString ['2'] = [['2']] := by decide
+  refine FileSpells.line (us1 := [⟨0, ['5'], true⟩]) (us2 := [⟨2, ['1'], true⟩, ⟨2, ['2'], false⟩])
+    (by unfold SkippedLine; decide) ?_ ?_
+  · rw [s1]
+    exact .shortVal (d := nArg) (by decide) rfl (by decide) (plain '5' (by decide)) (.nil _)
+  · refine FileSpells.line (us1 := [⟨2, ['1'], true⟩]) (us2 := [⟨2, ['2'], false⟩])
+      (by unfold SkippedLine; decide) ?_ ?_
+    · rw [s2]
+      exact .shortVal (d := lArg) (by decide) rfl (by decide) (plain '1' (by decide)) (.nil _)
+    · refine FileSpells.line (us1 := [⟨2, ['2'], false⟩]) (us2 := []) (by unfold SkippedLine; decide) ?_ (.nil _)
+      rw [s3]
+      exact .free (d := lArg) rfl rfl (plain '2' (by decide)) (.nil _)
+
+theorem hE : EnvSrcSpells cfg (lastAfter none usF) usE src.env := by
+  show Spells cfg (some 2) usE (ArgString.splitString ['-', 'f'])
+  have s1 : ArgString.splitString ['-', 'f'] = [['-', 'f']] := by decide
+  rw [s1]
+  exact .shortFlag (d := fArg) (by decide) rfl rfl (.nil _)
+
+theorem hA : Spells cfg (lastAfter none (usF ++ usE)) usA argv :=
+  .shortVal (d := nArg) (by decide) rfl (by decide) (plain '7' (by decide)) (.nil _)
+
+theorem hsc : ∀ i d, O i = true → cfg.args[i]? = some d → d.kind ≠ .vecInt ∧ ∃ n, d.card = .max n := by
+  intro i d hO hd
+  have : i = 0 := by simpa [O] using hO
+  subst this
+  have : d = nArg := by simpa [cfg] using hd.symm
+  subst this
+  exact ⟨by decide, 1, rfl⟩
+
+theorem hb : ∀ i d n, O i = true → cfg.args[i]? = some d → d.card = .max n → n = -1 ∨ (usesOf i usA : Int) ≤ n := by
+  intro i d n hO hd hn
+  have : i = 0 := by simpa [O] using hO
+  subst this
+  have : d = nArg := by simpa [cfg] using hd.symm
+  subst this
+  have : n = 1 := by simpa [nArg] using hn.symm
+  subst this
+  exact Or.inr (by decide)
+
+theorem hS : ∀ i d, UsedBy (usF ++ usE) i → O i = false → cfg.args[i]? = some d → d.card.NoEnd := by
+  intro i d ⟨u, hu, hi⟩ hO hd
+  simp only [usF, usE, List.cons_append, List.nil_append, List.mem_cons, List.not_mem_nil, or_false] at hu
+  rcases hu with rfl | rfl | rfl | rfl <;> simp only at hi <;> subst hi
+  · simp [O] at hO
+  · have : d = lArg := by simpa [cfg] using hd.symm
+    subst this; trivial
+  · have : d = lArg := by simpa [cfg] using hd.symm
+    subst this; trivial
+  · have : d = fArg := by simpa [cfg] using hd.symm
+    subst this; trivial
+
+/-- the line obeys every rule except the cardinality of `-n`: accepted once that is dropped -/
+theorem eR : ∃ hR, evalUses (cfg.relax O) (cfg.initState inits) (usF ++ usE ++ usA) = .ok hR := ⟨_, rfl⟩
+end Ex
+
+/-- `C07_override` applies: `-n 5` from the file is overridden by `-n 7` on argv without an
+    exception, the list collected its elements across two file lines, the flag came from the
+    environment variable -/
+example : ∃ hf, evalArguments Ex.cfg (Ex.cfg.initState Ex.inits) Ex.src (['p'] :: Ex.argv) = .ok hf ∧
+    (∃ st, hf.args[0]? = some st ∧ st.dest = .int 7) ∧ (∃ st, hf.args[1]? = some st ∧ st.dest = .flag true) ∧
+    (∃ st, hf.args[2]? = some st ∧ st.dest = .vec [1, 2]) := by
+  obtain ⟨hR, eR⟩ := Ex.eR
+  obtain ⟨hf, e, hd⟩ := C07_override Ex.cfg Ex.inits (by decide) Ex.O Ex.hsc Ex.src ['p'] Ex.argv Ex.hF Ex.hE Ex.hA eR
+    Ex.hb Ex.hS
+  have d0 : denote Ex.nArg (.int 0) (valsOf 0 (Ex.usF ++ Ex.usE ++ Ex.usA)) = .int 7 := by decide
+  have d1 : denote Ex.fArg (.flag false) (valsOf 1 (Ex.usF ++ Ex.usE ++ Ex.usA)) = .flag true := by decide
+  have d2 : denote Ex.lArg (.vec []) (valsOf 2 (Ex.usF ++ Ex.usE ++ Ex.usA)) = .vec [1, 2] := by decide
+  refine ⟨hf, e, ?_, ?_, ?_⟩
+  · rw [← d0]; exact hd 0 Ex.nArg (.int 0) rfl rfl (fun h => by cases h)
+  · rw [← d1]; exact hd 1 Ex.fArg (.flag false) rfl rfl (fun h => by cases h)
+  · rw [← d2]; exact hd 2 Ex.lArg (.vec []) rfl rfl (fun _ => ⟨[], rfl⟩)
+
+/-- the same abstract command line given on argv alone is refused (`-n` twice, `max 1`): the override
+    needs the source -/
+theorem C07_override_needs_source :
+    (evalArguments Ex.cfg (Ex.cfg.initState Ex.inits) {}
+      [['p'], ['-', 'n'], ['5'], ['-', 'l'], ['1'], ['2'], ['-', 'f'], ['-', 'n'], ['7']]).isOk = false := by
+  decide +kernel
+
+/-- `C07_valid_line_through_sources` and `C07_same_as_argv` apply: the valid line `-l 1 2 -f -n 7` with
+    `-l 1` / `2` in the file, `-f` in the environment and `-n 7` on argv -/
+example : ∃ hf, evalArguments Ex.cfg (Ex.cfg.initState Ex.inits)
+      { file := some [['-', 'l', ' ', '1'], ['#'], ['2']], env := some ['-', 'f'] } (['p'] :: Ex.argv) = .ok hf ∧
+    hf.args.map (·.dest) = [.int 7, .flag true, .vec [1, 2]] := by
+  have s2 : ArgString.splitString ['-', 'l', ' ', '1'] = [['-', 'l'], ['1']] := by decide
+  have s3 : ArgString.splitString ['2'] = [['2']] := by decide
+  have s1 : ArgString.splitString ['-', 'f'] = [['-', 'f']] := by decide
+  have hF : FileSrcSpells Ex.cfg none [⟨2, ['1'], true⟩, ⟨2, ['2'], false⟩]
+      (some [['-', 'l', ' ', '1'], ['#'], ['2']]) := by
+    show FileSpells _ _ _ _
+    refine FileSpells.line (us1 := [⟨2, ['1'], true⟩]) (us2 := [⟨2, ['2'], false⟩])
+      (by unfold SkippedLine; decide) ?_ (.skip (Or.inr rfl) ?_)
+    · rw [s2]
+      exact .shortVal (d := Ex.lArg) (by decide) rfl (by decide) (Ex.plain '1' (by decide)) (.nil _)
+    · refine FileSpells.line (us1 := [⟨2, ['2'], false⟩]) (us2 := []) (by unfold SkippedLine; decide) ?_ (.nil _)
+      rw [s3]
+      exact .free (d := Ex.lArg) rfl rfl (Ex.plain '2' (by decide)) (.nil _)
+  have hE : EnvSrcSpells Ex.cfg (some 2) Ex.usE (some ['-', 'f']) := by
+    show Spells _ _ _ _
+    rw [s1]
+    exact .shortFlag (d := Ex.fArg) (by decide) rfl rfl (.nil _)
+  have hw : Spells Ex.cfg none ([⟨2, ['1'], true⟩, ⟨2, ['2'], false⟩] ++ Ex.usE ++ Ex.usA)
+      [['-', 'l'], ['1'], ['2'], ['-', 'f'], ['-', 'n'], ['7']] :=
+    .shortVal (d := Ex.lArg) (by decide) rfl (by decide) (Ex.plain '1' (by decide))
+      (.free (d := Ex.lArg) rfl rfl (Ex.plain '2' (by decide))
+        (.shortFlag (d := Ex.fArg) (by decide) rfl rfl Ex.hA))
+  have eA : ∃ hArgv, evalArguments Ex.cfg (Ex.cfg.initState Ex.inits) {}
+      (['q'] :: [['-', 'l'], ['1'], ['2'], ['-', 'f'], ['-', 'n'], ['7']]) = .ok hArgv ∧
+      hArgv.args.map (·.dest) = [.int 7, .flag true, .vec [1, 2]] := by
+    rw [spells_eval _ _ _ hw]; exact ⟨_, rfl, rfl⟩
+  obtain ⟨hArgv, eA, hdA⟩ := eA
+  obtain ⟨hf, e, hd⟩ := C07_valid_line_through_sources Ex.cfg Ex.inits
+    { file := some [['-', 'l', ' ', '1'], ['#'], ['2']], env := some ['-', 'f'] } ['p'] Ex.argv hF hE Ex.hA
+    ['q'] _ hw eA
+    (by
+      intro i d ⟨u, hu, hi⟩ hd
+      simp only [Ex.usE, List.cons_append, List.nil_append, List.mem_cons, List.not_mem_nil, or_false] at hu
+      rcases hu with rfl | rfl | rfl <;> simp only at hi <;> subst hi
+      · have : d = Ex.lArg := by simpa [Ex.cfg] using hd.symm
+        subst this; trivial
+      · have : d = Ex.lArg := by simpa [Ex.cfg] using hd.symm
+        subst this; trivial
+      · have : d = Ex.fArg := by simpa [Ex.cfg] using hd.symm
+        subst this; trivial)
+  exact ⟨hf, e, by rw [hd, hdA]⟩
 
 /-! ### non-vacuity -/
 example : ArgString.splitString "-m 1,2".toList = ["-m".toList, "1,2".toList] := by decide
